@@ -170,6 +170,10 @@ def c09(tier, seed):
     chk = Check("C09", tier, seed)
     chk.assumptions = ASSUME_API
     c, d, s = apiprops.run_api(chk, "C09", [(4, 4)], san="asan" if tier == "quick" else "fast", stall_s=60.0)
+    if tier == "quick":  # the optimised build without sanitizers adds blocks at unaligned addresses
+        c2, d2, s2 = apiprops.run_api(chk, "C09", [(4, 4)], san="fast", stall_s=60.0)
+        _acc(c, c2)
+        d["class"] = max(d.get("class", 0), d2.get("class", 0))
     extra = dict(counters=c, tables_exhaustive=bool(c.get("tables_exhaustive")),
                  note="tables and the Gmul macro are recomputed exhaustively; the (key, block) space is sampled")
     return chk.finish(c.get("pairs_compared", 0), d.get("class", 0),
